@@ -495,7 +495,10 @@ def expand_to(E, t, shape, node=None):
                 j.append(z3.If(zi(m[1]) == 1, 0, zi(idx[k])))
         return j
 
-    return view_of(t, t.dtype, out, elem)
+    r = view_of(t, t.dtype, out, elem)
+    if off > 0 or any(m != "same" for m in modes if m is not None):
+        r.attrs["expanded"] = True      # broadcast dimensions have stride 0: not a dense tensor
+    return r
 
 
 def expand(E, t, *sizes, node=None, **kw):
@@ -766,6 +769,9 @@ def detach(E, t, node=None):
 
 
 def contiguous(E, t, memory_format=None, node=None):
+    if t.attrs.get("expanded") or t.attrs.get("layout_unknown"):
+        # not dense / layout not determined: contiguous() materialises a dense copy
+        return STensor(t.dtype, list(t.shape), t.snap(), device=t.device, fresh=True)
     return view_of(t, t.dtype, list(t.shape), lambda idx: list(idx), None, identity=True)
 
 
@@ -920,6 +926,8 @@ def weight_int8pack_mm(E, a, w, scales, node=None):
         raise_(E, "RuntimeError", "_weight_int8pack_mm: expects 2D A, 2D W and 1D scales", node)
     # checked by the kernel (TORCH_CHECK): one scale per output feature
     E.oblige("int8pack-scales-one-per-output-feature", zi(scales.shape[0]) == zi(w.shape[0]), kind="torch-pre", node=node)
+    # the kernel reads the scales as a dense vector through the raw pointer (strides are ignored): a broadcast (stride-0) view is misread
+    E.oblige("int8pack-scales-dense", z3.BoolVal(not scales.attrs.get("expanded")), kind="torch-pre", node=node)
     # assumed specification: products are accumulated in float32, the result is returned in the activation dtype
     wt = t_(E, to_dtype(E, w, "float32"))
     prod = matmul(E, to_dtype(E, a, "float32"), wt, node)
